@@ -423,7 +423,7 @@ def run_all_small(case):
 @st.composite
 def scale_case(draw):
     case = draw(mle_case(5))
-    case["scale_exp"] = draw(st.sampled_from([-30, -20, -10, 10, 20]))     # power of two: the rescaling is exact
+    case["scale_exp"] = draw(st.sampled_from([-30, -20, -10, 10, 20, 30, 30]))     # power of two: the rescaling is exact
     case["impl"] = draw(st.sampled_from(["py", "pyx", "builder"]))
     return case
 
@@ -453,6 +453,12 @@ def run_scale_invariance(case):
     L1, L2 = R.loglik(A, T1), R.loglik(A, T2)
     require(L2 >= L1 - 1e-6 * (1 + abs(L1)), "MLE of rescaled counts is less likely than the MLE of the original counts",
             L_original=L1, L_rescaled=L2, scale="2^%d" % case["scale_exp"], impl=case["impl"])
+    if case["scale_exp"] > 0 and not w2:
+        # counts of large magnitude (weights, pooled counts of many runs): the estimate itself is the one of the
+        # unscaled counts, to within what the stopping rule allows
+        dT = float(np.max(np.abs(T2 - T1)))
+        require(dT <= TOL_STOP, "MLE of counts scaled up by a power of two differs from the MLE of the original counts",
+                dT=dT, scale="2^%d" % case["scale_exp"], impl=case["impl"])
     return info(case, ["scale=2^%d" % case["scale_exp"], "impl=" + case["impl"], "rescaled_warned=%s" % w2])
 
 
